@@ -1107,3 +1107,116 @@ def _u4_ultimate(vc):
     vc.canary('canary.ultimate.never_schedules', len(calls) == 0)
     vc.ensure('ultimate.never_fails', escaped is None or escaped is st.cancel)
     return ('ultimate', len(calls))
+
+
+# =============================================================================================== U4f
+@harness('U4f', targets=['kopf._cogs.aiokits.aioadapters.wait_flag', 'kopf._cogs.aiokits.aioadapters.check_flag',
+                         'kopf._cogs.aiokits.aioadapters.raise_flag'], props=['C20'],
+         clauses=['wait.returns_only_once_raised', 'wait.none_is_immediate', 'check.tells_the_state', 'raise.raises_the_flag', 'unsupported_kinds_rejected'],
+         canaries=['canary.always_suspends'],
+         trusted=['asyncio.Future / asyncio.Event / concurrent.futures.Future / threading.Event by contract (fake classes in their place): '
+                  'awaiting a Future or Event.wait() suspends until it is done/set; Future.result() / threading.Event.wait() block until then; '
+                  'set_result()/set() raise it; done()/is_set() tell', 'loop.run_in_executor(None, fn): runs the blocking fn elsewhere, the awaiting task is suspended until it returns'])
+def U4f(vc):
+    """
+    aioadapters -- the flags of the operator's lifecycle (stop_flag: U4; ready_flag: U2), for every supported kind of flag
+    (asyncio.Future incl. subclasses such as Task, asyncio.Event, concurrent.futures.Future, threading.Event) and None:
+      wait.returns_only_once_raised   wait_flag(flag) returns only after the flag itself reported "raised" to a waiting operation of
+                                      its kind, without blocking the event loop (the blocking kinds are waited for in an executor);
+      wait.none_is_immediate          no flag: returns None at once;
+      check.tells_the_state           check_flag(flag) is the flag's own raised-state; None for no flag;
+      raise.raises_the_flag           raise_flag(flag) leaves the flag raised (nothing for None);
+      unsupported_kinds_rejected      anything else is a TypeError in all three.
+    """
+    fn_name = ['wait_flag', 'check_flag', 'raise_flag'][vc.nondet(3, 'function')]
+    st = Ghost(susp=0, blocked_in_loop=False, in_executor=False)
+
+    class Base:
+        def __init__(self):
+            self.raised = vc.bool('flag is raised already')
+            self.waited = False
+
+        def _block(self):            # a blocking wait: fine in an executor thread, a stall in the event loop
+            if not st.in_executor:
+                st.blocked_in_loop = True
+            self.raised = True
+            self.waited = True
+            return 'flag-result'
+
+    class AioFuture(Base):
+        def __await__(self):
+            if not self.raised:
+                yield Suspend('future')
+                self.raised = True
+            self.waited = True
+            return 'flag-result'
+
+        def done(self): return self.raised
+        def set_result(self, r): self.raised = True
+
+    class AioTask(AioFuture):
+        pass
+
+    class AioEvent(Base):
+        async def wait(self):
+            if not self.raised:
+                await suspend('event.wait')
+                self.raised = True
+            self.waited = True
+            return True
+
+        def is_set(self): return self.raised
+        def set(self): self.raised = True
+
+    class CfFuture(Base):
+        def result(self, timeout=None): return self._block()
+        def done(self): return self.raised
+        def set_result(self, r): self.raised = True
+
+    class ThEvent(Base):
+        def wait(self, timeout=None): return self._block()
+        def is_set(self): return self.raised
+        def set(self): self.raised = True
+
+    class Loop:
+        async def run_in_executor(self, executor, fn, *args):
+            await suspend('run_in_executor')
+            st.in_executor = True
+            try:
+                return fn(*args)
+            finally:
+                st.in_executor = False
+    kinds = [None, AioFuture, AioTask, AioEvent, CfFuture, ThEvent, 'unsupported']
+    kind = kinds[vc.nondet(len(kinds), 'kind of flag')]
+    flag = None if kind is None else (Opaque('not-a-flag') if kind == 'unsupported' else kind())
+    raised0 = getattr(flag, 'raised', None)
+
+    def on_suspend(site):
+        st.susp += 1
+    ld = vc.load('kopf._cogs.aiokits.aioadapters', fn_name, stubs={
+        'asyncio.Future': AioFuture, 'asyncio.Event': AioEvent, 'concurrent.futures.Future': CfFuture, 'threading.Event': ThEvent,
+        'asyncio.get_running_loop': lambda: Loop()})
+    if fn_name == 'check_flag':
+        try:
+            result, escaped = ld.fn(flag), None
+        except TypeError as e:
+            result, escaped = None, e
+    else:
+        result, escaped = _run(vc, ld.fn(flag), on_suspend)
+    if kind == 'unsupported':
+        vc.ensure('unsupported_kinds_rejected', isinstance(escaped, TypeError))
+        return (fn_name, 'rejected')
+    vc.ensure('unsupported_kinds_rejected', escaped is None)
+    if fn_name == 'wait_flag':
+        vc.canary('canary.always_suspends', st.susp > 0)
+        if flag is None:
+            vc.ensure('wait.none_is_immediate', result is None and st.susp == 0)
+        else:
+            vc.ensure('wait.returns_only_once_raised', flag.waited and not st.blocked_in_loop)
+    elif fn_name == 'check_flag':
+        vc.canary('canary.always_suspends', False)
+        vc.ensure('check.tells_the_state', result is None if flag is None else Eq(result, raised0))
+    else:
+        vc.canary('canary.always_suspends', False)
+        vc.ensure('raise.raises_the_flag', flag is None or flag.raised is True)
+    return (fn_name, 'ok')
